@@ -92,8 +92,8 @@ CHECKS["C15"] = {
     "units": [
         unit("./internal", CORE_FILES, "^Harness_C15_Reverse_n[1-4]$", QT, flags={"labels": "^C15:"}),
         unit("./internal", CORE_FILES, "^Harness_C15_Reverse_n[56]$", T, flags={"labels": "^C15:"}),
-        unit("./internal/controller/ledger", ["ctrl/dbmodel.go", "ctrl/lib.go", "ctrl/c25.go", "ctrl/ops.go", "ctrl/ops_gen.go", "ctrl/revert.go", "ctrl/revert_gen.go", "ctrl/refreplay.go", "ctrl/events.go", "ctrl/events_gen.go", "ctrl/c36.go"], "^Harness_REVC_", QT, flags={"labels": "^C15:", "max-decisions": 4000}, reach=["end"]),
-        unit("./internal/controller/ledger", ["ctrl/dbmodel.go", "ctrl/lib.go", "ctrl/c25.go", "ctrl/ops.go", "ctrl/ops_gen.go", "ctrl/revert.go", "ctrl/revert_gen.go", "ctrl/refreplay.go", "ctrl/events.go", "ctrl/events_gen.go", "ctrl/c36.go"], "^Harness_REVS_", QT, flags={"labels": "^C15:", "max-decisions": 4000}, reach=["end"]),
+        unit("./internal/controller/ledger", ["ctrl/dbmodel.go", "ctrl/lib.go", "ctrl/c25.go", "ctrl/ops.go", "ctrl/ops_gen.go", "ctrl/revert.go", "ctrl/revert_gen.go", "ctrl/refreplay.go", "ctrl/events.go", "ctrl/events_gen.go", "ctrl/c36.go", "ctrl/c28.go"], "^Harness_REVC_", QT, flags={"labels": "^C15:", "max-decisions": 4000}, reach=["end"]),
+        unit("./internal/controller/ledger", ["ctrl/dbmodel.go", "ctrl/lib.go", "ctrl/c25.go", "ctrl/ops.go", "ctrl/ops_gen.go", "ctrl/revert.go", "ctrl/revert_gen.go", "ctrl/refreplay.go", "ctrl/events.go", "ctrl/events_gen.go", "ctrl/c36.go", "ctrl/c28.go"], "^Harness_REVS_", QT, flags={"labels": "^C15:", "max-decisions": 4000}, reach=["end"]),
     ],
 }
 
@@ -115,7 +115,7 @@ CHECKS["C03"] = {
     ],
 }
 
-CTRL_FILES = ["ctrl/dbmodel.go", "ctrl/lib.go", "ctrl/c25.go", "ctrl/ops.go", "ctrl/ops_gen.go", "ctrl/revert.go", "ctrl/revert_gen.go", "ctrl/refreplay.go", "ctrl/events.go", "ctrl/events_gen.go", "ctrl/c36.go"]
+CTRL_FILES = ["ctrl/dbmodel.go", "ctrl/lib.go", "ctrl/c25.go", "ctrl/ops.go", "ctrl/ops_gen.go", "ctrl/revert.go", "ctrl/revert_gen.go", "ctrl/refreplay.go", "ctrl/events.go", "ctrl/events_gen.go", "ctrl/c36.go", "ctrl/c28.go"]
 CTRL_PKG = "./internal/controller/ledger"
 DBMODEL_ASSUME = [
     "dbmodel (harness/ctrl/dbmodel.go) stands for the SQL store below the controller's Store interface: tables as Go values, transactional write sets applied on Commit and dropped on Rollback, autocommit on a non-transactional handle, unique keys (ledger,id), (ledger,reference), (ledger,idempotency_key), (ledger,address), non-transactional sequences, 'a failed statement aborts the transaction', transaction_date() constant inside a transaction. It is trusted, not verified (no PostgreSQL in the sandbox)",
@@ -246,5 +246,20 @@ CHECKS["C38"] = {
         unit("./internal", ["core/c38.go"], "^Harness_C38_log_", QT, libs=["jsongen"], flags={"labels": "^(C38:|no-panic)", "max-paths": 200000}, reach=["end"]),
         unit("./internal/api/bulking", ["bulk/c32.go", "bulk/c38.go"], "^Harness_C38_bulk_(create|revert)", QT, libs=["jsongen"], extra=BULK_EXTRA, flags={"labels": "^(C38:|no-panic)", "max-paths": 400000, "max-decisions": 6000}, reach=["end"]),
         unit("./internal/api/bulking", ["bulk/c32.go", "bulk/c38.go"], "^Harness_C38_bulk_(add|delete)", QT, libs=["jsongen"], extra=BULK_EXTRA, flags={"labels": "^(C38:|no-panic)", "max-paths": 400000, "max-decisions": 6000}, reach=["end"]),
+    ],
+}
+
+
+CHECKS["C28"] = {
+    "level": "other",
+    "explanation": "(a) Regex inclusion decided by z3 over the strings theory, both sides read from the current source: the strings the Numscript lexer accepts as ACCOUNT / ASSET literals (NumScript.g4), filtered by the validation VisitLit applies to that literal kind (read from compiler.go), are all inside accounts.Pattern / assets.Pattern; a witness is replayed through the real compiler, VM and controller and the stored postings are inspected. (b) Value flow: machine.NewValueFromString — the single door through which variables and account metadata enter a script as account, asset or monetary — is executed on a symbolic string (SMT strings, the repo's regexes translated to str.in_re): an accepted account/asset/monetary matches the documented pattern (written out independently in the harness), is the submitted value, and a monetary amount is >= 0. (c) Postings path: Postings.Validate accepts a posting of symbolic strings only if source, destination and asset match the patterns and the amount is >= 0. Amount >= 0 and statement asset of script postings are C22's obligations.",
+    "bounds": {"quick": "literals of <= 6 bytes, variable values of <= 8 bytes, posting fields of <= 6 bytes; amounts unbounded", "thorough": "literals of <= 10 bytes"},
+    "outside": "strings longer than the bounds; the interpreter runtime (external library); import of a stream that no export produced; non-ASCII white space in strings.TrimSpace-like preprocessing (modelled for ASCII)",
+    "assumptions": COMMON_ASSUME + ["SMT-LIB regular expressions generated from regexp/syntax (Go side) and from Python's sre parser (lexer rules) denote the same languages as the RE2 patterns they come from"],
+    "units": [
+        unit("./internal", ["core/c28.go"], "^Harness_C28_", QT, flags={"labels": "^(C28:|no-panic)"}, reach=["end"]),
+        unit("./internal/machine", ["machine/c28.go"], "^Harness_C28_", QT, flags={"labels": "^(C28:|no-panic)"}, reach=["end", "accepted", "rejected"]),
+        {"kind": "py", "module": "c28_lexer", "pkg": "pychecks", "files": [], "run": "c28_lexer", "tiers": QT, "reach": ["end"],
+         "replay_unit": unit(CTRL_PKG, CTRL_FILES, "^Replay_C28_", QT)},
     ],
 }
